@@ -157,8 +157,8 @@ class SearchTracer:
                 return idx[id(n)]
             for n in list(g._nodes.values()):
                 index(n)
-            p = {'seed': index(seed), 'seed_id': seed.id, 'min': min_c, 'max_depth': max_d, 'steps': [], 'objs': [], 'index': index,
-                 'unmatched': 0}
+            p = {'seed': index(seed), 'seed_id': seed.id, 'seed_concept': getattr(seed, 'concept_name', ''), 'min': min_c, 'max_depth': max_d,
+                 'steps': [], 'objs': [], 'index': index, 'unmatched': 0}
             tracer.cur = p
             try:
                 return o_from(g, *a, **kw)
@@ -170,14 +170,30 @@ class SearchTracer:
                 del p['index'], p['objs']
                 tracer.passes.append(p)
 
+        def kind_of(e):
+            from edxml.miner.inference import SameObjectInference, RelationInference
+            if not isinstance(e.target, EventObjectNode):
+                return 'toHub'
+            if isinstance(e, SameObjectInference):
+                return 'sameObject'
+            if isinstance(e, RelationInference):
+                return 'intra' if e.relation.get_type() == 'intra' else 'inter'
+            return 'other'
+
         def same(node, *a, **kw):
             edges = o_same(node, *a, **kw)
             p = tracer.cur
             if p is None:
                 return edges
             edges = list(edges)
-            p['steps'].append([p['index'](node), [[p['index'](e.target), e.confidence, None] for e in edges]])
-            p['objs'].append(edges)
+            # every outgoing edge of the node, with what the pass makes of it
+            every = list(node.get_inferences())
+            chosen = [e for e in every if any(e is c for c in edges)]
+            if len(chosen) != len(edges) or any(a is not b for a, b in zip(chosen, edges)):
+                tracer.problem = 'the edges a pass considers are not a selection, in order, of the outgoing edges of the node'
+            p['steps'].append([p['index'](node), [[p['index'](e.target), e.confidence, kind_of(e), getattr(e.target, 'concept_name', '') or '',
+                                                   any(e is c for c in edges), None] for e in every]])
+            p['objs'].append(every)
             return edges
 
         def reason(edge, seed, confidence, *a, **kw):
@@ -186,8 +202,8 @@ class SearchTracer:
                 hit = False
                 if p['steps']:
                     for k, eo in enumerate(p['objs'][-1]):
-                        if eo is edge and p['steps'][-1][1][k][2] is None:
-                            p['steps'][-1][1][k][2] = confidence
+                        if eo is edge and p['steps'][-1][1][k][5] is None:
+                            p['steps'][-1][1][k][5] = confidence
                             hit = True
                             break
                 if not hit:
@@ -223,7 +239,9 @@ def search_requests(passes):
     for p in passes:
         reqs.append({'op': 'search', 'nodes': [[f2q(c), f2q(t)] for c, t in p['nodes']], 'seed': p['seed'], 'min': f2q(p['min']),
                      'eps': [str(EPS.numerator), str(EPS.denominator)], 'maxDepth': max(0, int(p['max_depth'])),
-                     'trace': [[n, [[t, f2q(c), None if r is None else f2q(r)] for t, c, r in es]] for n, es in p['steps']]})
+                     'seedConcept': p['seed_concept'],
+                     'trace': [[n, [[t, f2q(c), k, cn, cons, None if r is None else f2q(r)] for t, c, k, cn, cons, r in es]]
+                               for n, es in p['steps']]})
     return reqs
 
 
@@ -351,7 +369,7 @@ class C20(Property):
     required_theorems = (
         'noisyOr_unit', 'noisyOr_ge_each', 'attribute_meets_minimum', 'taintOf_unit', 'taintHistory_unit', 'taintHistory_mono', 'dijkstra_unit', 'relatedStep_unit',
         'round_decreases', 'rounds_bounded', 'universals_exact', 'tenth_unit',
-        'pickOk_sound', 'search_wellformed', 'search_terminates', 'search_sorted', 'search_visited_final', 'checker_exact', 'coverage',
+        'pickOk_sound', 'scoped_checker_refines', 'never_crosses_inter', 'inScope_unit', 'search_wellformed', 'search_terminates', 'search_sorted', 'search_visited_final', 'checker_exact', 'coverage',
     )
     level_text = ('PARTIAL. Lean 4 theorems over (a) the confidence arithmetic of the miner on exact rationals: every noisy-or '
                   'combination (attribute, concept name and related concept confidences), the taint formula as the SDK computes '
@@ -369,10 +387,14 @@ class C20(Property):
                   'present in the events. Tied to the code by replaying the trace of every reasoning pass of real mining runs '
                   '(processed nodes, considered edges, assigned confidences) through the checker and comparing the resulting '
                   'confidences, and by comparing the arithmetic and the universals on the values of those runs. Which edges a '
-                  'pass may use (hub construction, concept scope), graph construction from events and the JSON round trip are '
-                  'judged by the independent oracle only: tested, not proved.')
-    level_note = ('PARTIAL: hub construction, the concept scope filter of edges (get_same_concept_inferences) and graph '
-                  'construction from events are inputs of the model, not modelled; binary floating point is modelled by exact '
+                  'pass may use is modelled too (edges to hubs and of intra-concept relations always, of inter-concept relations '
+                  'never, from a hub to an object node when the concept names collected in the seed put its concept in scope '
+                  'above the minimum): the trace lists every outgoing edge of every processed node with what the pass made of it, '
+                  'and the checker decides it again (scoped_checker_refines, never_crosses_inter, inScope_unit). Hub construction, '
+                  'graph construction from events and the JSON round trip are judged by the independent oracle only: tested, not '
+                  'proved.')
+    level_note = ('PARTIAL: hub construction and graph construction from events (which nodes and edges exist) are inputs of the '
+                  'model, not modelled; binary floating point is modelled by exact '
                   'rationals (the checker grants products a slack of 1e-9; theorems are about slack 0).')
     technique = 'Lean 4 proof (invariants of the reasoning pass by induction over executions; bounds of the confidence arithmetic by induction over lists; termination measures; set characterisation of universals) + trace replay and differential correspondence; oracle-based testing of graph construction and JSON'
     parallel = True
@@ -486,7 +508,7 @@ class C20(Property):
             if rep['valid']:
                 search.append(['accepted', [None if c is None else float(Fraction(int(c[0]), int(c[1]))) for c in rep['sc']]])
             else:
-                search.append(['not an execution of the reasoning pass: entry %d of the trace' % rep['firstBad'], None])
+                search.append(['not an execution of the reasoning pass: entry %d of the trace (%s)' % (rep['firstBad'], rep.get('why')), None])
         return {'skipped': False, 'outcome': 'ok', 'noisy': noisy, 'taint': taint, 'taint_ok': True,
                 'universals': {k: sorted(list(x) for x in v) for k, v in uni.items()}, 'search': search, 'picks': picks, 'detail': 'undecided'}
 
